@@ -202,9 +202,34 @@ proof fn lemma_row_after_write(rr: int, w: nat, c: nat, row: int, col: nat)
 spec fn frame_start(t: GTerm, n: int) -> int { if n >= 1 { (t.row - (n - 1)) * t.w } else { t.lin() } }
 """
 
-WRAPPED_HEIGHT = dict(file="src/draw_target.rs", container="LineType", name="wrapped_height", ret="r", stub=True,
+WRAPPED_HEIGHT = dict(file="src/draw_target.rs", container="LineType", name="wrapped_height", ret="r",
+                      rewrites=[Rw("R6", r"((?:\w+\.)*\w+(?:\(\))?) as f64", r"F64::from_usize(\1)", count="any"),
+                                Rw("R6", r"(\((?:[^()]|\((?:[^()]|\([^()]*\))*\))*\)(?:\.\w+\(\))*) as usize", r"\1.trunc_usize()", count="any"),
+                                Rw("R5", r"usize::max\(terminal_len, 1\)\.into\(\)", "vl_from_usize(usize_max(terminal_len, 1))")],
+                      proofs=[("@start", "after", "        proof { lemma_ceil_div(cols(line_str(*self)), width as nat); }")],
                       requires=[("width", "width >= 1")],
                       ensures=[("C19-wrapped-height", "r.0 as nat == height_of(*self, width as nat)")])
+# the f64 quotient rounded up is the integer ceiling division (over the reals, R6)
+CEIL_LEMMA = r"""
+// R5 (ASSUMED): `n.into()` with the extracted `impl<T: Into<usize>> From<T> for VisualLines { Self(value.into()) }` at T = usize
+// (the reflexive Into of std is the identity)
+#[verifier::external_body]
+fn vl_from_usize(n: usize) -> (r: VisualLines) ensures r.0 == n { VisualLines::from(n) }
+fn usize_max(a: usize, b: usize) -> (r: usize) ensures r == (if a >= b { a } else { b }) { if a >= b { a } else { b } }
+proof fn lemma_ceil_div(c: nat, w: nat)
+    requires w >= 1
+    ensures rceil(c as real / w as real) == ceil_div(c, w) as int, 0real <= rceil(c as real / w as real) as real, (rceil(c as real / w as real) as real) < 18446744073709551616real || c >= 18446744073709551616
+{
+    let q = ((c + w - 1) / (w as int)) as int;
+    let x = c as real / w as real;
+    assert(q * w >= c && (q - 1) * w < c) by (nonlinear_arith) requires q == (c + w - 1) / (w as int), w >= 1, c >= 0;
+    assert(x * (w as real) == c as real) by (nonlinear_arith) requires x == c as real / w as real, w >= 1;
+    assert(((q - 1) as real) < x && x <= (q as real)) by (nonlinear_arith)
+        requires x * (w as real) == (c as real), ((q * w) as real) >= (c as real), (((q - 1) * w) as real) < (c as real), w >= 1;
+    assert((-x).floor() == -q);
+    assert(q <= c) by (nonlinear_arith) requires (q - 1) * w < c, w >= 1, q >= 0, c >= 0;
+}
+"""
 
 DRAW_RW = [
     RwFn("R3", r3_index_loops, count=1),
@@ -223,7 +248,7 @@ INV_FRAME_H = ["!hazard ==> term@.lin() >= start", "!hazard ==> forall|p: int| p
 UNIT = Unit(
     name="draw_to_term",
     properties=["C01", "C03", "C18", "C19"],
-    prelude=["gterm"],
+    prelude=["gterm", "realf"],
     rlimit=60,
     trusted=[
         "the ghost terminal (prelude/gterm.rs) is the ASSUMED contract of the TermLike dependency; R10: every terminal type is this one model, R2: its &self methods take &mut",
@@ -250,6 +275,7 @@ UNIT = Unit(
         Fn("src/draw_target.rs", "VisualLines", "saturating_sub", ret="r",
            ensures=[("def", "r.0 as int == if self.0 >= other.0 { self.0 - other.0 } else { 0 }")]),
         Fn("src/draw_target.rs", "VisualLines", "as_usize", ret="r", ensures=[("def", "r == self.0")]),
+        Raw(CEIL_LEMMA),
         Fn(**WRAPPED_HEIGHT),
         Fn("src/draw_target.rs", "LineType", "console_width", ret="r",
            rewrites=[Rw("R5", r"console::measure_text_width", "measure_text_width")],
